@@ -7,10 +7,10 @@ use minicbor::decode::{Decode, Decoder, Error};
 use serde_json::Value;
 
 #[derive(Debug, Clone, Copy)]
-pub struct FrameSpec { pub n: usize, pub good: bool }
+pub struct FrameSpec { pub n: usize, pub good: bool, pub huge: bool }
 
 pub fn frames_from_json(v: &Value) -> Vec<FrameSpec> {
-    v.as_array().unwrap().iter().map(|f| FrameSpec { n: f["n"].as_u64().unwrap() as usize, good: f["good"].as_bool().unwrap() }).collect()
+    v.as_array().unwrap().iter().map(|f| FrameSpec { n: f["n"].as_u64().unwrap() as usize, good: f["good"].as_bool().unwrap(), huge: f["huge"].as_bool().unwrap_or(false) }).collect()
 }
 
 /// Smallest payload length a good frame with index f can have (its id must fit).
